@@ -241,6 +241,18 @@ func checkC09(c *Ctx, r *Report) {
 				for _, s := range sections {
 					if anyIn(sliceOf(lenSide), fieldPathOf(isValue(dns), s)) {
 						seenSec[s] = true
+						// the length is the section's length now, i.e. read after the OPT was set aside
+						for x := range sliceOf(lenSide) {
+							u, isLoad := x.(*ssa.UnOp)
+							if s != "Extra" || !isLoad || u.Op != token.MUL || !readsField("Msg", s)(u.X) {
+								continue
+							}
+							for _, pop := range callsIn(fn, "(Msg).popEdns0") {
+								if !precedes(pop.(ssa.Instruction), u) {
+									problems = append(problems, fmt.Sprintf("%s: TC is computed from a length of dns.%s taken before the OPT was set aside: the OPT, which is always re-appended, counts as a dropped record and TC is set on replies that lost nothing", c.pos(u.Pos()), s))
+								}
+							}
+						}
 						// kept count from truncateLoop of the same section (or 0)
 						cs := sliceOf(cntSide)
 						okCnt := false
@@ -434,10 +446,64 @@ func checkC09(c *Ctx, r *Report) {
 		}
 		r.check(len(ps) == 0, "C09.R4.walk", "Msg.Truncate:questions", c.pos(fn.Pos()), "l = 12 + questions", "%s", strings.Join(ps, "; "))
 	}
+	c09R5(c, r)
 }
 
 // edgeDominatesAny: one of the If's edges edge-dominates target.
 func edgeDominatesAny(fn *ssa.Function, ifi *ssa.If, target *ssa.BasicBlock) bool {
 	b := ifi.Block()
 	return edgeDominates(fn, b, b.Succs[0], target) || edgeDominates(fn, b, b.Succs[1], target)
+}
+
+// c09R5: Truncate budgets every message as compressed (it sets Compress and measures with a compression map),
+// PackBuffer compresses only when isCompressible() agrees. isCompressible may therefore only say no when
+// there is nothing to compress: at most one question and no records at all.
+func c09R5(c *Ctx, r *Report) {
+	r.rule("C09.R5.compress-gate", 1, "isCompressible() is false only for a message with at most one question and no records, so what Truncate measured compressed is packed compressed")
+	fn := c.ssaFunc("Msg.isCompressible")
+	if fn == nil {
+		r.cerr("C09.R5.compress-gate", "Msg.isCompressible", "function not found")
+		return
+	}
+	r.fn("Msg.isCompressible")
+	limits := []struct {
+		sec string
+		max int64
+	}{{"Question", 1}, {"Answer", 0}, {"Ns", 0}, {"Extra", 0}}
+	var problems []string
+	nFalse := 0
+	for _, rp := range returnPoints(fn, 0) {
+		facts := rp.factsOf(fn)
+		v := rp.Results[0]
+		if b, ok := constBool(v); ok {
+			if b {
+				continue
+			}
+		} else {
+			atom, pol := condAtom(v)
+			facts = append(facts, Fact{Atom: atom, Holds: !pol})
+		}
+		nFalse++
+		for _, lim := range limits {
+			isLen := func(x ssa.Value) bool {
+				cl, ok := x.(*ssa.Call)
+				return ok && calleeNameSSA(&cl.Call) == "builtin.len" && anyIn(sliceOf(cl.Call.Args[0]), readsField("Msg", lim.sec))
+			}
+			best := int64(-1)
+			for _, f := range facts {
+				if _, hi, _, hasHi := intervalFromFact(f, isLen); hasHi && (best < 0 || hi < best) {
+					best = hi
+				}
+			}
+			if best < 0 {
+				problems = append(problems, fmt.Sprintf("%s: reports 'not compressible' whatever the number of records in dns.%s", c.pos(rp.Pos), lim.sec))
+			} else if best > lim.max {
+				problems = append(problems, fmt.Sprintf("%s: reports 'not compressible' for messages with up to %d entries in dns.%s (at most %d can never share a name): such a message is measured compressed by Truncate and Len's callers but packed uncompressed, so the reply exceeds the size it was truncated to", c.pos(rp.Pos), best, lim.sec, lim.max))
+			}
+		}
+	}
+	if nFalse == 0 {
+		problems = append(problems, "isCompressible never returns false")
+	}
+	r.check(len(uniqStrings(problems)) == 0, "C09.R5.compress-gate", "Msg.isCompressible", c.pos(fn.Pos()), "false only for <=1 question and no records", "%s", strings.Join(uniqStrings(problems), "; "))
 }
